@@ -83,7 +83,8 @@ def check_c03(prop, tier, seed):
         i += 1
     chosen = chosen[:n]
     items = [{'id': j + 1, 'stream': st, 'seed': seed * 7907 + j, 'tls': (j % 6 == 5),
-              'mode': 'session' if j % 9 == 8 else 'transaction'} for j, st in enumerate(chosen)]
+              'mode': 'session' if j % 9 == 8 else 'transaction', 'pre': 'lone_sync' if j % 4 == 1 else None}
+             for j, st in enumerate(chosen)]
     results = core.run_parallel(relay.run_relay, items, workers=14)
     recs = []
     for it, r in zip(items, results):
